@@ -652,3 +652,180 @@ class CircM(Model):
 
     def state_key(self):
         return f"{self.n}:{self.start}:{self.cnt}"
+
+
+# ------------------------------------------------------------------------------------------------
+# C21: MemoryBank
+class MemBankM(Model):
+    def __init__(self, depth, width, rp, wp, transparent, ror, gran, counters=None):
+        self.depth, self.width, self.rp, self.wp, self.tr, self.ror, self.gran = depth, width, rp, wp, transparent, ror, gran
+        self.mem = [0] * depth
+        self.q = [collections.deque() for _ in range(rp)]
+        self.ports = {}
+        for i in range(rp):
+            self.ports[f"read_req#{i}"] = 1
+            self.ports[f"read_resp#{i}"] = 1
+        for j in range(wp):
+            self.ports[f"write#{j}"] = 1
+        self.ng = 1 if gran is None else width // gran
+        self.errs: list = []
+        self.stats = counters if counters is not None else collections.Counter()
+
+    def begin_cycle(self, rnd):
+        self.waddrs = None
+        self.hot = rnd.random() < 0.5
+
+    def ready(self, p):
+        n, _, i = p.partition("#")
+        i = int(i)
+        if n == "read_req":
+            return len(self.q[i]) < 2
+        if n == "read_resp":
+            return len(self.q[i]) > 0
+        return True
+
+    def pending_addrs(self):
+        return [e[2] for q in self.q for e in q]
+
+    def args(self, p, rnd):
+        n, _, i = p.partition("#")
+        i = int(i)
+        if n == "read_req":
+            return {"addr": rnd.randrange(self.depth)}
+        if n == "write":
+            if self.waddrs is None:
+                self.waddrs = rnd.sample(range(self.depth), min(self.wp, self.depth))
+                pend = self.pending_addrs()
+                if self.hot and pend:
+                    # aim the first write at the address of a pending response (bypass / overflow tracking)
+                    a = rnd.choice(pend)
+                    if a in self.waddrs:
+                        self.waddrs.remove(a)
+                    else:
+                        self.waddrs.pop()
+                    self.waddrs.insert(0, a)
+            if i >= len(self.waddrs):
+                return None
+            a = {"addr": self.waddrs[i], "data": rnd.getrandbits(self.width)}
+            if self.gran is not None:
+                a["mask"] = rnd.getrandbits(self.ng)
+            return a
+        return {}
+
+    def wr(self, mem, a):
+        if self.gran is None:
+            mem[a["addr"]] = a["data"]
+            return
+        v = mem[a["addr"]]
+        for g in range(self.ng):
+            if a["mask"] >> g & 1:
+                m = ((1 << self.gran) - 1) << (g * self.gran)
+                v = (v & ~m) | (a["data"] & m)
+        mem[a["addr"]] = v
+
+    def nontrivial(self, c):
+        tags = set()
+        pend = set(self.pending_addrs())
+        for p, (a, _) in c.items():
+            if p.startswith("write"):
+                if a["addr"] in pend:
+                    tags.add("write_hits_pending")
+                if self.gran is not None and 0 < a["mask"] < (1 << self.ng) - 1:
+                    tags.add("partial_mask")
+                for q, (b, _) in c.items():
+                    if q.startswith("read_req") and b["addr"] == a["addr"]:
+                        tags.add("write_and_request_same_row")
+        if any(len(q) == 2 for q in self.q):
+            tags.add("overflow_buffer_occupied")
+        for t in tags:
+            self.stats[t] += 1
+        if not tags:
+            return None
+        return f"tr{int(self.tr)}ror{int(self.ror)}g{self.gran}|rp{self.rp}wp{self.wp}|{'+'.join(sorted(tags))}"
+
+    def apply(self, c):
+        after = list(self.mem)
+        for p, (a, _) in c.items():
+            if p.startswith("write"):
+                self.wr(after, a)
+        self.errs = []
+        for i in range(self.rp):
+            if f"read_resp#{i}" in c:
+                e = self.q[i].popleft()
+                out = c[f"read_resp#{i}"][1]["data"]
+                exp = e[1] if e[0] == "v" else (after if self.tr else self.mem)[e[2]]
+                self.stats["responses_checked"] += 1
+                if out != exp:
+                    self.errs.append(("result:read_resp", {"port": i, "observed": out, "expected": exp, "requested_addr": e[2],
+                                                          "semantics": "response-time" if e[0] == "a" else "request-time"}))
+            if f"read_req#{i}" in c:
+                ad = c[f"read_req#{i}"][0]["addr"]
+                self.q[i].append(("a", None, ad) if self.ror else ("v", (after if self.tr else self.mem)[ad], ad))
+        self.mem = after
+
+    def post_errors(self):
+        return self.errs
+
+    def state_key(self):
+        return f"tr{int(self.tr)}ror{int(self.ror)}|" + ",".join(str(len(q)) for q in self.q)
+
+    def drain_ports(self):
+        return {f"read_resp#{i}": 1.0 for i in range(self.rp)}
+
+    def final_errors(self):
+        left = sum(len(q) for q in self.q)
+        return [("conservation", {"responses_never_delivered": left})] if left else []
+
+
+# ------------------------------------------------------------------------------------------------
+# C22: AsyncMemoryBank
+class AsyncMemM(Model):
+    def __init__(self, depth, width, rp, wp, gran):
+        self.depth, self.width, self.rp, self.wp, self.gran = depth, width, rp, wp, gran
+        self.mem = [0] * depth
+        self.ports = {f"read#{i}": 1 for i in range(rp)} | {f"write#{j}": 1 for j in range(wp)}
+        self.ng = 1 if gran is None else width // gran
+        self.last_written = None
+
+    def begin_cycle(self, rnd):
+        self.waddrs = None
+        self.hot = rnd.random() < 0.5
+
+    def args(self, p, rnd):
+        n, _, i = p.partition("#")
+        i = int(i)
+        if n == "read":
+            if self.hot and self.last_written is not None and rnd.random() < 0.6:
+                return {"addr": self.last_written}
+            return {"addr": rnd.randrange(self.depth)}
+        if self.waddrs is None:
+            self.waddrs = rnd.sample(range(self.depth), min(self.wp, self.depth))
+        if i >= len(self.waddrs):
+            return None
+        a = {"addr": self.waddrs[i], "data": rnd.getrandbits(self.width)}
+        if self.gran is not None:
+            a["mask"] = rnd.getrandbits(self.ng)
+        return a
+
+    def result(self, p, a):
+        if p.startswith("read"):
+            return {"data": self.mem[a["addr"]]}
+
+    def nontrivial(self, c):
+        tags = set()
+        for p, (a, _) in c.items():
+            if p.startswith("write"):
+                if self.gran is not None and 0 < a["mask"] < (1 << self.ng) - 1:
+                    tags.add("partial_mask")
+                for q, (b, _) in c.items():
+                    if q.startswith("read") and b["addr"] == a["addr"]:
+                        tags.add("read_and_write_same_row")
+            elif a["addr"] == self.last_written:
+                tags.add("read_of_last_written_row")
+        return f"d{self.depth}g{self.gran}rp{self.rp}wp{self.wp}|{'+'.join(sorted(tags))}" if tags else None
+
+    def apply(self, c):
+        for p, (a, _) in c.items():
+            if p.startswith("write"):
+                MemBankM.wr(self, self.mem, a)
+                self.last_written = a["addr"]
